@@ -30,7 +30,7 @@ def check_case(case):
     out = []
     seq = realise(p, n, N, case["how"], case["k"])
     try:
-        got = SP(seq).get_phasePlotRegion()
+        got = core.sp(seq).get_phasePlotRegion()
     except Exception as e:  # noqa
         return [{"key": "exception", "what": "get_phasePlotRegion raised %r for (n+,n-,N)=(%d,%d,%d)" % (e, p, n, N),
                  "case": dict(case, seq=seq)}], exp, None
